@@ -1059,6 +1059,9 @@ def check(ck):
                         done = True
             if not done:
                 odd.append((A.norm(s.targets[0]), A.norm(V)))
+        elif isinstance(s, ast.AugAssign) and isinstance(s.op, ast.BitOr) and not isinstance(s.target, ast.Subscript):
+            # result |= mapping
+            kw_merge.append((strip_cast(s.value), at, s))
         elif isinstance(s, ast.Expr) and A.call_attr(s.value) == "update":
             c = s.value
             a0 = strip_cast(c.args[0]) if len(c.args) == 1 and not c.keywords else None
